@@ -2,5 +2,5 @@ from props._solver import standard_run
 
 
 def run(ctx):
-    corr, viol = standard_run(ctx, "C17", {"stats", "term", "crash"}, 700, 12000, ["two_no_sub_cycle_livelock"], limit_prob=0.25, observe=True)
+    corr, viol = standard_run(ctx, "C17", {"stats", "term", "crash"}, 700, 40000, ["two_no_sub_cycle_livelock"], limit_prob=0.25, observe=True)
     return {"corr_diffs": corr, "violations": viol, "component": "event counts observed by interposition on the interpreted engine (harness/observe.py) and the 13 statistics of the model vs BacktrackSolver.get_statistics() after enumeration, partial enumeration and optimisation"}
